@@ -67,9 +67,14 @@ def main():
     cfg["coordinator"]["agents"]["Attacker"]["start_position"]["controlled_hosts"] = ["213.47.23.195", "random"]
     cfg["coordinator"]["agents"]["Defender"]["start_position"]["controlled_hosts"] = ["all_local"] if not spec["dynamic"] else ["192.168.1.2"]
     cfg["coordinator"]["agents"]["Defender"]["goal"]["known_blocks"] = {"192.168.1.6": ["213.47.23.195"]}
+    if spec.get("generic_start"):        # a scenario whose addresses this probe does not know: start wherever the scenario allows
+        cfg["coordinator"]["agents"]["Attacker"]["start_position"]["controlled_hosts"] = ["random"]
+        cfg["coordinator"]["agents"]["Attacker"]["goal"]["known_data"] = {}
+        cfg["coordinator"]["agents"]["Defender"]["start_position"]["controlled_hosts"] = []
+        cfg["coordinator"]["agents"]["Defender"]["goal"]["known_blocks"] = {}
     sim = Sim(cfg, seed=spec["seed"])
     transcript = [{"config_hash": sim.coord._CONFIG_FILE_HASH}]
-    roles = ["Attacker", "Defender", "Attacker"][: spec["players"]]
+    roles = ["Attacker", "Defender", "Attacker", "Attacker"][: spec["players"]]
 
     awaiting = set()
 
